@@ -801,8 +801,18 @@ func (in *Interp) bytesCompare(x, y []*smt.Term) *smt.Term {
 	} else if len(x) > len(y) {
 		res = p1
 	}
-	for i := n - 1; i >= 0; i-- {
-		res = c.Ite(c.BVUlt(x[i], y[i]), m1, c.Ite(c.Eq(x[i], y[i]), res, p1))
+	// common prefix: skip syntactically identical leading bytes, compare the rest as ONE wide unsigned number
+	// (big-endian concatenation) — one bvult instead of a 32-deep ite chain for hash-sized keys
+	lo := 0
+	for lo < n && x[lo] == y[lo] {
+		lo++
+	}
+	if lo < n {
+		X, Y := x[lo], y[lo]
+		for i := lo + 1; i < n; i++ {
+			X, Y = c.Concat(X, x[i]), c.Concat(Y, y[i])
+		}
+		res = c.Ite(c.BVUlt(X, Y), m1, c.Ite(c.Eq(X, Y), res, p1))
 	}
 	return res
 }
